@@ -197,12 +197,28 @@ class CallGraph:
                 todo.extend(self.prog.nested(u))
         return seen
 
-    def all_writes(self, attr: str | None = None, pred=None) -> list[Write]:
+    def _is_local_name(self, u: Unit, name: str) -> bool:
+        """*name* is a plain local variable (or parameter) of unit *u*: a mutation of the object it names is not a write of an attribute called *name*."""
+        memo = self.__dict__.setdefault('_locals_memo', {})
+        if u.key not in memo:
+            loc: set[str] = set(u.params())
+            glob: set[str] = set()
+            for n in own_nodes(u.node):
+                if isinstance(n, ast.Name) and isinstance(n.ctx, ast.Store):
+                    loc.add(n.id)
+                elif isinstance(n, (ast.Global, ast.Nonlocal)):
+                    glob |= set(n.names)
+            memo[u.key] = loc - glob
+        return name in memo[u.key]
+
+    def all_writes(self, attr: str | None = None, pred=None, include_locals: bool = False) -> list[Write]:
         out: list[Write] = []
         for ws in self.writes.values():
             for w in ws:
                 if attr is not None and w.attr != attr:
                     continue
+                if attr is not None and not include_locals and w.base is None and self._is_local_name(w.unit, w.attr):
+                    continue  # `handlers.append(..)` on a local list called like the attribute
                 if pred is not None and not pred(w):
                     continue
                 out.append(w)
